@@ -232,7 +232,9 @@ CLAIMED = {
         "design_ref": 'DESIGN.md 5/C19',
         "note": 'template-equals-code is a Coq-evaluated correspondence run (angles 1e-12 rad, nanoseconds exactly), sampled not proved; binary64 results bounded to 50'
                 ' scans; default options only; the angle floats are not modelled. Trusted: Coq kernel with primitive floats/Int63 (listed under the three B64 '
-                "theorems), numpy's truncating float x timedelta64, doc-transcribed limits in the oracle",
+                "theorems), numpy's truncating float x timedelta64, doc-transcribed limits in the oracle; additionally translator/gen_instruments.py (fail-closed) "
+                'evaluates the constants of amsua, mhs, hirs4, atms, mwhs2 and avhrr EXACTLY from the source text on every run, and C19_source_numbers* state that the '
+                'templates are built from those numbers (positions, scan period, swath, end angles, sampling interval, start delay, scan offset)',
         "technique": 'hand-written executable Gallina templates parameterised over an arithmetic (Q / PrimFloat); lra/lia over Q + forallb sweeps; correspondence via '
                 'vm_compute',
     },
